@@ -23,7 +23,7 @@ func init() {
 			"(R06.2) every arm that re-enters native code resets the exit code to OK first; the call entry's deferred function calls recover() unconditionally and resets the exit code on every path that leaves with a non-nil error (a function object stays usable after a trap, a stack overflow, a host panic or an exit); " +
 			"(R06.3) the interpreter's recover path truncates both the value stack and the frame stack unconditionally; (R06.4) every panic in the two engines' run-time files carries a documented kind (wasmruntime error, the error of FailIfClosed/ExitError, a snapshot, or an internal BUG/TODO string); " +
 			"(R06.5) both engines compare the stack size with a ceiling before growing and report wasmruntime.ErrRuntimeStackOverflow; (R06.6) the closed word keeps the exit code in its high half on every transition (new = flag | code<<32 from 0; flag bits only otherwise). " +
-			"NOT decided: correctness of native frame unwinding and stack-pointer adjustment, behaviour of later calls in general.",
+			"(R06.7) the context watcher a call starts is stopped by a deferred call, so that a failed call does not leave a watcher that later closes the healthy instance. NOT decided: correctness of native frame unwinding and stack-pointer adjustment, behaviour of later calls in general.",
 		Rules: []core.Rule{
 			{ID: "R06.1", Template: "T-EXHAUST", Text: "every ExitCode constant has an arm; non-resuming arms panic with a wasmruntime error", Min: 20},
 			{ID: "R06.2", Template: "T-MUSTPASS", Text: "reset-before-resume; deferred recover is unconditional and resets the exit code on every failing path", Min: 8},
@@ -31,6 +31,7 @@ func init() {
 			{ID: "R06.4", Template: "T-WHOCALLS", Text: "panic values in the engines run-time files have a documented kind; both engines raise the same set of wasmruntime errors", Min: 10},
 			{ID: "R06.5", Template: "T-CONSULT", Text: "stack ceilings are compared before growth", Min: 2},
 			{ID: "R06.6", Template: "T-REPR", Text: "closed-word transitions preserve the exit code in the high half", Min: 2},
+			{ID: "R06.7", Template: "T-MUSTPASS", Text: "the context watcher of a call is stopped by a deferred call (also on panic exits)", Min: 2},
 		},
 		Run: runC06,
 		Controls: []core.Control{
@@ -40,6 +41,7 @@ func init() {
 			{Name: "interp-frames-not-truncated", File: "internal/engine/interpreter/interpreter.go", Old: "\tce.stack, ce.frames = ce.stack[:0], ce.frames[:0]\n", New: "\tce.stack = ce.stack[:0]\n", Rule: "R06.3", Substr: "recover"},
 			{Name: "panic-with-bare-int", File: "internal/engine/interpreter/interpreter.go", Old: "\tif callStackCeiling <= len(ce.frames) {\n\t\tpanic(wasmruntime.ErrRuntimeStackOverflow)", New: "\tif callStackCeiling <= len(ce.frames) {\n\t\tpanic(len(ce.frames))", Rule: "R06.4", Substr: "pushFrame"},
 			{Name: "interp-no-ceiling", File: "internal/engine/interpreter/interpreter.go", Old: "\tif callStackCeiling <= len(ce.frames) {\n\t\tpanic(wasmruntime.ErrRuntimeStackOverflow)\n\t}\n", New: "", Rule: "R06.5", Substr: "interpreter"},
+			{Name: "interp-watcher-stopped-only-on-normal-return", File: "internal/engine/interpreter/interpreter.go", Old: "\t\tdone := m.CloseModuleOnCanceledOrTimeout(ctx)\n\t\tdefer done()\n\t}\n\n\tce.callFunction(ctx, m, ce.f)\n", New: "\t\tdone := m.CloseModuleOnCanceledOrTimeout(ctx)\n\t\tce.callFunction(ctx, m, ce.f)\n\t\tdone()\n\t} else {\n\t\tce.callFunction(ctx, m, ce.f)\n\t}\n", Rule: "R06.7", Substr: "interpreter"},
 			{Name: "closed-word-loses-exit-code", File: "internal/wasm/module_instance.go", Old: "m.Closed.CompareAndSwap(closed, (closed&^exitCodeFlagMask)|exitCodeFlagResourceClosed)", New: "m.Closed.CompareAndSwap(closed, exitCodeFlagResourceClosed|uint64(uint32(closed>>32)))", Rule: "R06.6", Substr: "FailIfClosed"},
 		},
 		Configs: []core.BuildCfg{{GOOS: "linux", GOARCH: "arm64"}},
@@ -47,6 +49,7 @@ func init() {
 }
 
 func runC06(c *core.Ctx) {
+	checkWatcherStopped(c)
 	c.SSA()
 	ep := c.Pkg("internal/engine/wazevo")
 	ip := c.Pkg("internal/engine/interpreter")
@@ -584,3 +587,55 @@ func highHalf(v, old ssa.Value, d int) int {
 var errorIface = types.Universe.Lookup("error").Type().Underlying().(*types.Interface)
 
 var _ = sort.Strings
+
+
+// ---- R06.7 the cancellation watcher of a call is stopped on every exit, including panics ----
+
+func checkWatcherStopped(c *core.Ctx) {
+	n := 0
+	for _, e := range []struct{ name, rel string }{{"interpreter", "internal/engine/interpreter"}, {"compiler", "internal/engine/wazevo"}} {
+		p := c.Pkg(e.rel)
+		if p == nil {
+			continue
+		}
+		info := p.TypesInfo
+		core.AllFuncDecls(p, func(fd *ast.FuncDecl) {
+			ast.Inspect(fd.Body, func(x ast.Node) bool {
+				as, ok := x.(*ast.AssignStmt)
+				if !ok || len(as.Rhs) != 1 || len(as.Lhs) != 1 {
+					return true
+				}
+				call, ok := as.Rhs[0].(*ast.CallExpr)
+				if !ok {
+					return true
+				}
+				se, ok := call.Fun.(*ast.SelectorExpr)
+				if !ok || se.Sel.Name != "CloseModuleOnCanceledOrTimeout" {
+					return true
+				}
+				id, ok := as.Lhs[0].(*ast.Ident)
+				if !ok {
+					return true
+				}
+				done := info.Defs[id]
+				n++
+				deferred := false
+				ast.Inspect(fd.Body, func(y ast.Node) bool {
+					if ds, ok := y.(*ast.DeferStmt); ok {
+						if f, ok := ds.Call.Fun.(*ast.Ident); ok && info.Uses[f] == done {
+							deferred = true
+						}
+					}
+					return true
+				})
+				c.Check(deferred, "R06.7", e.name+": the context watcher started in "+core.FuncName(p, fd)+" is stopped by a deferred call", call.Pos(),
+					"`defer done()`: it also runs when the call leaves through a trap or host panic",
+					"the watcher's cancel function is not deferred: when the call fails through a panic the watcher goroutine stays alive, and when that call's context is later cancelled or expires it closes the otherwise healthy instance – every later call returns `module closed with context canceled`")
+				return true
+			})
+		})
+	}
+	if n < 2 {
+		c.Undecided("R06.7", "context watchers", 0, fmt.Sprintf("only %d watcher start(s) found in the engines", n))
+	}
+}
